@@ -9,6 +9,10 @@ import (
 // for modified-but-stat-compatible rules.
 
 func verifBaseRule14(i int) *Rule {
+	if rt.Param("PACING") != 0 {
+		// plain pacing rules (no statistic of their own) that differ in their threshold: their runtime state is the pacing cursor
+		return &Rule{Resource: "A", TokenCalculateStrategy: Direct, ControlBehavior: Throttling, Threshold: float64(1 + i + int(rt.U32n("thr", 3))*4), MaxQueueingTimeMs: 10}
+	}
 	// two stat-compatible throttling-free reject rules on the default window that differ in their threshold
 	return &Rule{Resource: "A", TokenCalculateStrategy: Direct, ControlBehavior: Reject, Threshold: float64(1 + i + int(rt.U32n("thr", 3))*4),
 		StatIntervalInMs: []uint32{0, 700}[rt.Param("STANDALONE")]}
@@ -53,7 +57,7 @@ func VerifC14() {
 			x.Threshold += 100 // same statistic shape, different threshold
 			nl, kind[i] = append(nl, &x), 10+rep[c-nOld]
 		default:
-			nl, kind[i] = append(nl, &Rule{Resource: "A", ControlBehavior: Throttling, Threshold: 5, MaxQueueingTimeMs: 10}), 99
+			nl, kind[i] = append(nl, &Rule{Resource: "A", ControlBehavior: Throttling, Threshold: 5, MaxQueueingTimeMs: 77}), 99
 		}
 	}
 	if rt.Bool("perResource") {
@@ -120,7 +124,7 @@ func VerifC14() {
 			modIdx = i
 		}
 	}
-	if nMod == 1 && surplus == 0 && spare >= 1 {
+	if nMod == 1 && surplus == 0 && spare >= 1 && rt.Param("PACING") == 0 {
 		rt.Reach("c14.statreuse")
 		found := false
 		for j := 0; j < nOld; j++ {
